@@ -11,6 +11,8 @@ import subprocess
 import sys
 
 HINTS = {
+    "C02": "infretis/classes/repex.py (REPEX_state.prob and its _last_prob memo, inf_retis, find_blocks, quick_prob, permanent_prob, fast_glynn_perm, random_prob; the methods that change state/_locks/_trajs: add_traj, lock, unlock, swap, sort_trajstate, pick, pick_traj_ens)",
+    "C10": "infretis/core/tis.py (wirefence_weight_and_pick, compute_weight, calc_cv_vector, high_acc_swap, wire_fencing, subt_acceptance), infretis/classes/repex.py (initiate_ensembles, load_paths: how the weight vector is used)",
     "C03": "infretis/classes/repex.py (REPEX_state: pick, pick_lock, pick_traj_ens, lock/unlock, add_traj, treat_output, prep_md_items, sort_trajstate, locked_paths), infretis/classes/engines/factory.py (assign_engines), infretis/scheduler.py",
     "C04": "infretis/classes/repex.py (REPEX_state.treat_output 'record weights' part, traj_data[...]['frac'], write_to_pathens, write_toml, load_paths), infretis/setup.py",
     "C05": "infretis/classes/repex.py (treat_output path numbering with traj_num, sort_trajstate, prob/inf_retis), infretis/setup.py (initial current.traj_num)",
